@@ -20,6 +20,9 @@ _global_ignore_patterns := data.eval.params.ignore_files if {
 # exclude imitates .gitignore pattern matching as best it can
 # ref: https://git-scm.com/docs/gitignore#_pattern_format
 _exclude(pattern, file) if {
+	# the empty pattern excludes nothing (FilterIgnoredPaths skips it too)
+	pattern != ""
+
 	some p in _pattern_compiler(pattern)
 	glob.match(p, ["/"], file)
 }
